@@ -56,6 +56,8 @@ def run(ctx):
     R.rule_who_leader(ctx)
     R.rule_vote_durable(ctx)
     R.rule_votes_of_this_election(ctx)
+    R.rule_stepdown_needs_newer_term(ctx)
+    R.rule_election_resets_votes(ctx)
     C28.rule_reconcile_from_commit(ctx)
     C28.rule_commit_monotone(ctx)
     C28.rule_validated_first(ctx)
